@@ -476,6 +476,8 @@ def run(ctx):
     try:
         vals = c10_consts.regen(ctx, d)
         ctx.note("(G) constants from the headers: %s" % {k: vals[k] for k in ("unit_sz", "hdr_sz", "min_obj", "ratio", "factor")})
+        for what in vals["shape_problems"]:
+            ctx.broken("source-shape:" + what, "gc.c no longer has the text the model mirrors for: %s (see gen/c10_consts.py SHAPES)" % what)
     except Exception as e:
         ctx.broken("regen:C10_Consts", str(e))
         return
